@@ -91,7 +91,11 @@ func OpenNode(t *Tree, be *kvm.Backend) (*Node, error) {
 		return nil, err
 	}
 	hs := &HookStore{DBStore: store}
-	return &Node{Tree: t, Backend: be, Store: store, Hooked: hs, CM: chain.NewManager(hs, tip), Submitted: map[types.BlockID]bool{}, MaxHeight: tip.Index.Height}, nil
+	var opts []chain.ManagerOption
+	if len(t.OrderOverride) > 0 {
+		opts = append(opts, chain.WithExpiringContractOrder(t.OrderOverride))
+	}
+	return &Node{Tree: t, Backend: be, Store: store, Hooked: hs, CM: chain.NewManager(hs, tip, opts...), Submitted: map[types.BlockID]bool{}, MaxHeight: tip.Index.Height}, nil
 }
 
 // Close releases the backend.
